@@ -48,12 +48,16 @@ def name_match(descriptors, name):
 
 
 class Model(object):
-    def __init__(self, root, fail_elems=None, variant=()):
+    def __init__(self, root, fail_elems=None, variant=(), fail_occ=None):
         # variant: deviations from Appendix D that reproduce known findings of the implementation;
         # only used to *classify* a divergence, never to accept one
         self.variant = set(variant)
         self.root = root
         self.fail_elems = fail_elems or set()   # xpaths of elements that fail with error.execution (C07)
+        # transient faults (C07 mode T): xpath -> {n-th execution of the element: None, or for <if> the index of the
+        # if/elseif head whose condition failed}
+        self.fail_occ = fail_occ or {}
+        self.exec_n = {}
         self.binding = root.attrs.get("binding", "early")
         self.states = []         # all state-like elements incl. history, document order
         self.order = {}
@@ -232,6 +236,11 @@ class Model(object):
         if tag in ("datamodel", "transition", "state", "parallel", "final", "history", "initial", "onentry", "onexit", "invoke", "donedata"):
             return
         self.tokens.append(("c", e.xpath()))
+        nth = self.exec_n[e.xpath()] = self.exec_n.get(e.xpath(), 0) + 1
+        occ = self.fail_occ.get(e.xpath(), {})
+        if nth in occ and tag != "if":
+            self.raise_internal("error.execution")
+            raise ExecError()
         if e.xpath() in self.fail_elems and tag != "if":
             self.raise_internal(self.fail_elems[e.xpath()] if isinstance(self.fail_elems, dict) else "error.execution")
             raise ExecError()
@@ -286,12 +295,12 @@ class Model(object):
                 else:
                     cur[1].append(c)
             branches.append(cur)
-            for (head, body) in branches:
+            for hidx, (head, body) in enumerate(branches):
                 if head.tag == "else":
                     ok = True
                 else:
                     ast = head.meta.get("cond_ast")
-                    if head.xpath() in self.fail_elems:
+                    if head.xpath() in self.fail_elems or (nth in occ and occ[nth] == hidx):
                         # a failing condition raises error.execution and counts as false; the block goes on
                         self.raise_internal("error.execution")
                         ok = False
